@@ -77,6 +77,18 @@ def run(ctx):
                         raised_d = (d[0] == 'err' and d[1] == 'ConstraintsError')
                         if d[0] == 'err' and not raised_d:
                             continue
+                        # the constraint check applies to what is actually on the wire (a value lacking a mandatory
+                        # extension addition is truncated by the encoder: finding C01-mandatory-addition-missing)
+                        plain = impl.decode(spec, 'A', w[1])
+                        if plain[0] != 'ok':
+                            continue
+                        try:
+                            want_d = admits(t, plain[1])
+                        except Exception:
+                            continue
+                        if want_d != want:
+                            ctx.count('decode.wire-value-differs')
+                            continue
                         if raised_d != (not want):
                             if 'size-on-reference' in flags and want is False:
                                 ctx.known_finding('C11-size-on-reference', 'a SIZE constraint applied to a type reference (T (SIZE(..))) is ignored by the constraints checker')
